@@ -102,6 +102,31 @@ def run(ctx, chk):
     bad, n = O.only_callers(M(r"std::fs::File::unlock"), set())
     chk.oblige("B18.3 only_callers(File::unlock) = {} [%d sites]" % n, not bad, detail={"offenders": bad},
                key="B18.3|only_callers|File::unlock", msg="nobody releases the advisory lock early")
+    # B18.4 the last handle's drop waits for background work, and background work does not keep the instance alive
+    drop = O.body("<rawdb::Database as core::ops::drop::Drop>::drop")
+    r = O.reach(drop.id)
+    chk.oblige("B18.4 <Database as Drop>::drop reaches sync_bg_tasks -> JoinHandle::join",
+               "rawdb::Database::sync_bg_tasks" in r and any("JoinHandle" in x and x.endswith("::join") for x in r),
+               key="B18.4|drop-joins", msg="dropping the last handle must join background tasks so the file locks are "
+                                           "released when the caller believes the database closed")
+    rb_ = O.body("rawdb::Database::run_bg")
+    clones = []
+    for bb in [rb_] + [P.bodies[k] for k in P.children.get(rb_.id, [])]:
+        for b, t in bb.calls():
+            nm = names(t)
+            if any(n.endswith("Clone>::clone") or n.endswith("Clone::clone") for n in nm):
+                st = t["callee"].get("self_ty", "") + " ".join(t["callee"].get("targs", []))
+                if "Database" in st or "DatabaseInner" in st:
+                    clones.append(t.get("span"))
+    chk.oblige("B18.4 run_bg does not hand the background thread a counted Database clone", not clones,
+               detail={"clones": clones}, key="B18.4|run_bg-uncounted",
+               msg="a counted clone held by the background task makes strong_count != 1 at the last user drop: the drop "
+                   "neither cancels nor joins the task and the directory stays locked")
+    spawn = O.sites(rb_, M(r"std::thread::(functions::)?spawn"))
+    pushes = O.sites(rb_, M(r"alloc::vec::Vec::<T, A>::push"))
+    chk.oblige("B18.4 run_bg records the JoinHandle of the spawned task (spawn then push into bg_tasks)",
+               bool(spawn) and bool(pushes), key="B18.4|run_bg-records-handle",
+               msg="every background task must be joinable by sync_bg_tasks")
     chk.sample({"rule": "B18.1", "function": OPEN,
                 "try_lock_site": [ob.blocks[b]["term"].get("span") for b in O.sites(ob, TRY_LOCK)]})
     chk.assumptions.append("flock-style advisory lock semantics across processes are the operating system's")
